@@ -40,8 +40,13 @@ type c24Case struct {
 	Tracked bool        `json:"tracked,omitempty"` // neo*: the witness script is the tracked script
 	Script  *scriptSpec `json:"script,omitempty"`  // neo*: otherwise this script
 	Sigs    []sigSpec   `json:"sigs"`
-	Path    string      `json:"path"` // ont: sync | import ; neo*: gate+handler are both run
-	Mode    string      `json:"mode"` // generator mode (label only)
+	Path    string      `json:"path"` // ont: sync | import | import2 ; neo*: gate+handler are both run
+	// import2 (ont): an honest message of the height is stored first (FirstVia sync|import), then a second
+	// deposit at the same height carries Second = none | same | forged (a message with another state
+	// root whose signer list is Keys/Sigs, with a proof against that forged root)
+	Second   string `json:"second,omitempty"`
+	FirstVia string `json:"firstvia,omitempty"`
+	Mode     string `json:"mode"` // generator mode (label only)
 }
 
 func genSet(t *rapid.T, name string, lo, hi int) []int {
@@ -236,7 +241,17 @@ func genC24(t *rapid.T) c24Case {
 			inForce = c.Set2
 		}
 		c.Mode, c.Keys, c.Sigs = genSigners(t, inForce, ceilThird(len(inForce)), false)
-		c.Path = rapid.SampledFrom([]string{"sync", "sync", "import"}).Draw(t, "path")
+		c.Path = rapid.SampledFrom([]string{"sync", "sync", "import", "import2", "import2"}).Draw(t, "path")
+		if c.Path == "import2" {
+			c.Second = rapid.SampledFrom([]string{"none", "same", "forged", "forged", "forged", "forged"}).Draw(t, "second")
+			c.FirstVia = rapid.SampledFrom([]string{"sync", "import"}).Draw(t, "firstvia")
+			if c.Height <= ontGenesisH {
+				c.Height = 11
+			}
+			if c.Second == "forged" && rapid.IntRange(0, 3).Draw(t, "unsigned") == 0 {
+				c.Mode, c.Keys, c.Sigs = "unsigned", nil, nil
+			}
+		}
 	default:
 		n := len(c.Set)
 		c.Set = canonicalOrder(c.Set)
@@ -407,6 +422,10 @@ func runC24Ont(ctx *ev.Ctx, c c24Case) {
 	}
 	need := ceilThird(len(tracked))
 	v := c24Oracle(tracked, need, c.Keys, true, c.Sigs)
+	if c.Path == "import2" {
+		runC24OntTwoStep(ctx, c, w, tracked, need, v)
+		return
+	}
 
 	// a transfer payload provable against the message's state root by a one-leaf Merkle path
 	mp := &ccom.MakeTxParam{TxHash: []byte{1, 2, 3}, CrossChainID: []byte{9, 9}, FromContractAddress: []byte{7}, ToChainID: c24Chain,
@@ -463,6 +482,79 @@ func runC24Ont(ctx *ev.Ctx, c c24Case) {
 		ctx.Label("ont:rejected")
 	}
 	_ = dupReaches
+}
+
+// runC24OntTwoStep: once an authenticated message of a height is stored, later deposits at that
+// height are proven against THAT root; a relayer-supplied message with another root gains nothing
+// unless it is itself signed by enough distinct tracked peers.
+func runC24OntTwoStep(ctx *ev.Ctx, c c24Case, w *sideWorld, tracked []int, need int, v c24Verdict) {
+	if tracked == nil || need < 1 {
+		ctx.Label("skipped:malformed-case")
+		return
+	}
+	ctx.Label("ont:second:" + c.Second)
+	value := func(id byte) []byte {
+		mp := &ccom.MakeTxParam{TxHash: []byte{1, 2, id}, CrossChainID: []byte{9, id}, FromContractAddress: []byte{7}, ToChainID: c24Chain,
+			ToContractAddress: []byte{8}, Method: "unlock", Args: []byte{id}}
+		s := common.NewZeroCopySink(nil)
+		mp.Serialization(s)
+		return s.Bytes()
+	}
+	relayer := world.Acct(60).Address
+	deposit := func(proof, raw []byte) world.Result {
+		ep := &ccom.EntranceParam{SourceChainID: c24Chain, Height: c.Height, Proof: proof, RelayerAddress: relayer[:], HeaderOrCrossChainMsg: raw}
+		es := common.NewZeroCopySink(nil)
+		ep.Serialization(es)
+		return w.Invoke(utils.CrossChainManagerContractAddress, ccom.IMPORT_OUTER_TRANSFER_NAME, es.Bytes(), []common.Address{relayer})
+	}
+	// step 1: the honest message (two transfers in its state tree), signed by exactly `need` tracked peers
+	honestVals := [][]byte{value(1), value(2)}
+	root, proof1 := merkleRootAndPath(honestVals, 0)
+	_, proof2 := merkleRootAndPath(honestVals, 1)
+	signers := tracked[:need]
+	honest := ontMsgBytes(ontMsg{Height: c.Height, Keys: signers, Sigs: okSigs(signers)}, root)
+	var r1 world.Result
+	if c.FirstVia == "import" {
+		r1 = deposit(proof1, honest)
+	} else {
+		r1 = w.syncCrossChainMsgs([][]byte{honest})
+	}
+	if !r1.OK() || !w.ontMsgStored(c.Height) {
+		ctx.Failf("ont/import2: honest message of height %d signed by %d distinct tracked peers (%d required) was not stored via %s: %v", c.Height, need, need, c.FirstVia, r1.Err)
+	}
+	w.NextBlock()
+	// step 2
+	switch c.Second {
+	case "none", "same":
+		var raw []byte
+		if c.Second == "same" {
+			raw = honest
+		}
+		if r := deposit(proof2, raw); !r.OK() {
+			ctx.Failf("ont/import2: second deposit at height %d (message: %s) with a valid proof against the stored root was rejected: %v", c.Height, c.Second, r.Err)
+		}
+		ctx.Label("ont:second-deposit-accepted")
+	default:
+		forgedVal := value(3)
+		froot, fproof := merkleRootAndPath([][]byte{forgedVal}, 0)
+		forged := ontMsgBytes(ontMsg{Height: c.Height, Keys: c.Keys, Sigs: c.Sigs}, froot)
+		before := w.Dump()
+		r := deposit(fproof, forged)
+		switch {
+		case v.eligible:
+			// a conflicting message that is itself signed by enough distinct tracked peers: not judged
+			ctx.Label(fmt.Sprintf("ont:conflicting-authenticated-message(accepted=%v)", r.OK()))
+		case r.OK():
+			ctx.Failf("ont/import2: after the authenticated message of height %d was stored, a deposit proven against ANOTHER state root was accepted; the supplied message carrying that root has %d distinct tracked valid signer(s), %d required (tracked %v, bookkeepers %v, sigs %+v)",
+				c.Height, v.distinct, need, tracked, c.Keys, c.Sigs)
+		default:
+			ctx.NonTrivial()
+			ctx.Label("ont:forged-root-rejected")
+			if d := world.DiffDump(before, w.Dump()); d != "" {
+				ctx.Failf("ont/import2: rejected forged-root deposit changed state: %s", d)
+			}
+		}
+	}
 }
 
 func runC24Neo(ctx *ev.Ctx, c c24Case) {
@@ -616,6 +708,8 @@ func TestC24(t *testing.T) {
 		"cases: a tracked validator set of 1..10 keys installed through the real governance flow (register+approve side chain, operator-signed syncGenesisHeader / "+
 			"approved state validators), then one message with a signer list drawn from modes clean/below/dup/foreign/badsig/mismatch/random (ONT: bookkeeper list + SigData via "+
 			"syncCrossChainMsg or ImportOuterTransfer, optional second key height; NEO/NEO3: multisig witness under the tracked or another script via VerifyCrossChainMsgSig and the handler). "+
-			"non-trivial: a tracked signer listed several times so that the multiplicity reaches the requirement while the distinct count does not, or a foreign script satisfied by its own signers; distinct by JSON of the case",
+			"ONT two-step histories (import2): an honest message of height H is stored via sync or import, then a second deposit at H carries no message, the same message, or a message with ANOTHER state root "+
+			"(unsigned / foreign / below-quorum / duplicated signers) and a proof against that forged root: it must be rejected unless that message is itself signed by enough distinct tracked peers. "+
+			"non-trivial: a forged-root second deposit with an ineligible signer list, a tracked signer listed several times so that the multiplicity reaches the requirement while the distinct count does not, or a foreign script satisfied by its own signers; distinct by JSON of the case",
 		genC24, runC24)
 }
